@@ -688,7 +688,7 @@ func (ex *exec) callBuiltin(caller *frame, callpos token.Pos, fn *ssa.Builtin, a
 					if txt, okc := jb.concreteText(); okc {
 						return len(txt)
 					}
-					return symv{tResize(mk("int2bv", sBV(64), tStrLen(ex.freshVar("bloblen", sString))), 64, false)}
+					return symv{tNat(tStrLen(ex.freshVar("bloblen", sString)), 64)}
 				}
 			}
 			return len(x)
@@ -703,8 +703,7 @@ func (ex *exec) callBuiltin(caller *frame, callpos token.Pos, fn *ssa.Builtin, a
 			if x.T.S == sUID {
 				return 16
 			}
-			t := mk("int2bv", sBV(64), tStrLen(x.T))
-			return symv{t}
+			return symv{tNat(tStrLen(x.T), 64)}
 		default:
 			panic(fmt.Sprintf("len: illegal operand: %T", x))
 		}
